@@ -44,7 +44,9 @@ TG == 1..TraceLog[c].n
 \* Exclusive restricted to the pairs an event of goroutine g can change (all other pairs were judged by earlier events)
 TExclusive(g, in, p) == \A h \in TG : g # h /\ in[g] # 0 /\ p[g] # "put" /\ in[h] # 0 /\ p[h] # "put" => in[g] # in[h]
 TIsolationBreaches(hd, bf) == {<<g, x>> \in UNION {{g} \X hd[g] : g \in TG} : x.ref # 0 /\ bf[x.ref][1] # g}
-TNoUnlockedWriteRead(rd, wr) == \A w \in wr : \A x \in rd \cup wr : x = w \/ x[2] # w[2]
+\* NoUnlockedWriteRead restricted to the pairs the event of x = <<goroutine, map>> can change (all other pairs were
+\* judged by earlier events): another goroutine is inside the same map's critical section and one of the two writes
+TNoUnlockedWriteRead(x, rd, wr) == \A y \in rd \cup wr : (y[2] = x[2] /\ y[1] # x[1]) => ~(x \in wr \/ y \in wr)
 
 Same == UNCHANGED <<prog, k, free, nextInst, val, lock, cached, miss, sched>>
 
@@ -62,8 +64,8 @@ TCache == /\ Ev.e \in {"lock", "fill", "unlock"}
           /\ LET x  == <<Ev.g, Ev.m>>
                  rd == IF Ev.e = "lock" THEN reading \cup {x} ELSE IF Ev.e = "unlock" THEN reading \ {x} ELSE reading
                  wr == IF Ev.e = "fill" THEN writing \cup {x} ELSE IF Ev.e = "unlock" THEN writing \ {x} ELSE writing
-             IN /\ Report(IF TNoUnlockedWriteRead(rd, wr) THEN <<>> ELSE <<Rec("unlocked-write-read", Ev.m, Ev.m)>>)
-                /\ reading' = rd /\ writing' = IF TNoUnlockedWriteRead(rd, wr) THEN wr ELSE wr \ {x}
+             IN /\ Report(IF TNoUnlockedWriteRead(x, rd, wr) THEN <<>> ELSE <<Rec("unlocked-write-read", Ev.m, Ev.m)>>)
+                /\ reading' = rd /\ writing' = IF TNoUnlockedWriteRead(x, rd, wr) THEN wr ELSE wr \ {x}
           /\ Same /\ UNCHANGED <<inst, pc, buf, held, result>>
 TRet == /\ Ev.e = "ret"
         /\ LET g   == Ev.g
